@@ -55,6 +55,10 @@ def case(idx, payload):
 
 def run(ctx, n, seed_off=0, collect=True):
     res = fw.run_cases(case, [(ctx.seed + seed_off, None, 4)] * n)
+    # operator overloads, dunder methods, enums and defaults in quantity: the places where two alternatives of the grammar
+    # compete and a comment glued to a token can tip the longest match
+    res += fw.run_cases(case, [(ctx.seed + seed_off + 3, dict(extra_member_kinds=['op', 'op', 'op', 'dunder', 'enum', 'prop'],
+                                                             max_members=7, extra_kinds=['cls', 'cls', 'var', 'enum']), 4)] * (n // 2))
     first = None
     for r in res:
         if "crash" in r:
@@ -85,6 +89,15 @@ def main(ctx):
     fw.translate_and_build(ctx, ["WrapModel", "wrapmodel"])
     fw.audit(ctx, THEOREM_MODULES)
     run(ctx, ctx.scale(70, 1500))
+    import props.c01 as c01
+    for e in ctx.known:
+        w = e["witness"]
+        still = c01.impl_parse_dump(w["input"]) != c01.impl_parse_dump(w["reference"])
+        if e.get("kind") == "fixed":
+            if still:
+                ctx.spec_fail("a defect recorded as fixed is back: " + e["what"], **w)
+        elif still:
+            ctx.known_hit(e)
     ctx.extra["rule"] = ("each generated module is spelled with 4 of the layout styles %s; atomic lexemes whose inner layout is not free "
                          "(documented limits): 'unsigned char', 'enum class', 'enum struct', 'std::' before pair, operator symbols, "
                          "include header text, default-value text" % STYLES)
